@@ -1,7 +1,7 @@
 //! Linear decision trees
 //!
 use std::cmp::Ordering;
-use std::collections::{HashMap, HashSet, VecDeque};
+use std::collections::{HashMap, VecDeque};
 use std::hash::{Hash, Hasher};
 
 use linfa::dataset::AsSingleTargets;
@@ -563,16 +563,17 @@ impl<F: Float, L: Label> DecisionTree<F, L> {
 
     /// Return features_idx of this tree (BFT)
     pub fn features(&self) -> Vec<usize> {
-        // vector of feature indexes to return
-        let mut fitted_features = HashSet::new();
+        // vector of feature indexes to return, in the order of their first use (a hash set would
+        // hand them back in an order that changes from call to call)
+        let mut fitted_features = Vec::new();
 
         for node in self.iter_nodes().filter(|node| !node.is_leaf()) {
             if !fitted_features.contains(&node.feature_idx) {
-                fitted_features.insert(node.feature_idx);
+                fitted_features.push(node.feature_idx);
             }
         }
 
-        fitted_features.into_iter().collect::<Vec<_>>()
+        fitted_features
     }
 
     /// Return the mean impurity decrease for each feature
